@@ -34,6 +34,11 @@ CHECKS['C08'] = dict(
    note='Trusted: as C02. Partial: C08_interleaving_statement and the matrix round trip are stated / checked by enumeration, not proved.',
    technique='Lean 4 proof (log replay by induction + atomicity) + enumeration of interleavings and card round trips',
    ref='7/C08')
+CHECKS['C19'] = dict(
+   text='Machine-checked proof over a transcription of the two memo caches of utils.py (look-up, reversed() eviction, expect_failure branch): for EVERY history, every truth function (what jsonschema decides, incl. other errors) and every capacity, each call is answered exactly as a first call on empty caches; the caches never exceed their capacity; every cached entry equals truth; the repaired look-up keeps caching. The pinned look-up is refuted by a kernel-decided two-call history. Correspondence: every distinct call is first made in a fresh interpreter with network functions stubbed to raise (baseline = truth), then all call sequences of length <= 3 over calls sharing a key, shared-file pairs, and long random sequences overflowing the 20-entry caches are run on the real functions and on the Lean model; bundled valid/invalid samples are asserted.',
+   note='Trusted: Lean kernel; axioms propext, Quot.sound; jsonschema and the file system are the parameter truth (observed per call in a fresh process); tools/c19_child.py network stubs.',
+   technique='Lean 4 proof (cache invariant by induction over all histories) + differential call sequences against fresh-process baselines',
+   ref='7/C19')
 NOT_YET = {}
 def main():
     props = [json.loads(l) for l in open(os.path.join(HERE, 'properties.jsonl'))]
